@@ -18,6 +18,8 @@ type c19Env struct {
 	customPath bool
 	before     int // 0 none, 1 passes, 2 fails
 	beforeRuns int
+	armed      bool // before == 3: the before-request function fails from now on
+	armPostOnly bool
 	beforeTok  []interface{}
 	session    string
 	sseBody    []byte
@@ -70,7 +72,7 @@ func c19Setup(e *c19Env) {
 		opts = append(opts, WithHTTPBeforeRequest(func(ctx context.Context, r *http.Request) error {
 			e.beforeRuns++
 			e.beforeTok = append(e.beforeTok, ctx.Value(verifCtxKey{}))
-			if e.before == 2 {
+			if e.before == 2 || (e.before == 3 && e.armed && (!e.armPostOnly || r.Method == "POST")) {
 				return errC19Before
 			}
 			return nil
@@ -109,7 +111,7 @@ func c19Config(e *c19Env) {
 	e.hdrA = vBool("hdrA")
 	e.hdrB = vBool("hdrB")
 	e.customPath = vBool("customPath")
-	e.before = vChoice("before", 3)
+	e.before = vChoice("before", 4) // 0 none, 1 passes, 2 always fails, 3 passes during the handshake and fails afterwards
 	if vBool("sessionIssued") {
 		e.session = "sess-1"
 	}
@@ -135,11 +137,51 @@ func H_C19_streamable() {
 	}
 	c19CheckSent(e, e.net.sent[0], false)
 	c19CheckSent(e, e.net.sent[1], e.session != "")
-	if e.before == 1 {
+	if e.before == 1 || e.before == 3 {
 		vAssert("before-once-per-request", e.beforeRuns == 2)
 		vAssert("before-sees-handshake-context", vAnd(e.beforeTok[0] == "handshake", e.beforeTok[1] == "handshake"))
 	}
 	n0, b0 := len(e.net.sent), e.beforeRuns
+	if e.before == 3 {
+		// from now on the before-request function refuses: the operation fails and nothing more is sent
+		e.armed = true
+		octx := context.WithValue(context.Background(), verifCtxKey{}, "operation")
+		switch op {
+		case 0:
+			vReach("handshake-only")
+			return
+		case 1:
+			_, err := e.client.CallTool(octx, &CallToolRequest{Params: CallToolParams{Name: "t"}})
+			vAssert("refused-request-fails", vAnd(err != nil, errors.Is(err, errC19Before)))
+		case 2:
+			err := e.client.SendRootsListChangedNotification(octx)
+			vAssert("refused-notification-fails", vAnd(err != nil, errors.Is(err, errC19Before)))
+		case 3:
+			if e.session == "" {
+				vReach("terminate-no-session")
+				return
+			}
+			vAssert("refused-terminate-fails", e.client.TerminateSession(octx) != nil)
+		default:
+			if e.session == "" {
+				vReach("no-stream-without-session")
+				return
+			}
+			// the listening GET is let through; the answer to the server-issued request is refused
+			e.armPostOnly = true
+			e.sseBody = []byte("id: 1\ndata: {\"jsonrpc\":\"2.0\",\"id\":9,\"method\":\"roots/list\"}\n\n")
+			tr := e.client.transport.(*streamableHTTPClientTransport)
+			tr.connectGetSSE(hctx)
+			vAssert("refused-answer-not-sent", len(e.net.sent) == n0+1)
+			vAssert("before-ran-for-stream-and-answer", e.beforeRuns == b0+2)
+			vReach("refused-answer")
+			return
+		}
+		vAssert("nothing-sent-when-before-fails", len(e.net.sent) == n0)
+		vAssert("before-ran-once-for-the-refused-request", e.beforeRuns == b0+1)
+		vReach("refused")
+		return
+	}
 	octx := context.WithValue(context.Background(), verifCtxKey{}, "operation")
 	wantTok := interface{}("operation")
 	switch op {
